@@ -155,6 +155,14 @@ def zeroClaims (pos n : Nat) : List Claim :=
 def extentClaim (next : Nat) : List Claim :=
   if next = 0 then [] else [{ idx := next - 1, mask := 0, bits := 0 }]
 
+/-- the switch key that stands for the DEFAULT-CASE: the smallest non-negative integer that no CASE claims. It is 0 or the
+    successor of some case's upper limit (a smallest unclaimed k > 0 has a claimed predecessor), so searching these
+    candidates is exhaustive — no sorting, no scan -/
+def specDefaultKey (cases : List MuxCaseD) : Int :=
+  let unclaimed (k : Int) : Bool := decide (0 ≤ k) && cases.all (fun cs => !(decide (cs.lower ≤ k ∧ k ≤ cs.upper)))
+  let cands : List Int := (0 :: cases.map (fun cs => cs.upper + 1)).filter unclaimed
+  cands.foldl (fun m k => if k < m then k else m) (cands.headD 0)
+
 mutual
 /-- a data object at byte `pos` (bit position `p` only for simple objects) -/
 def layoutDop : (fuel : Nat) → Ctx → Dop → PVal → (pos p : Nat) → Option Out
@@ -190,6 +198,34 @@ def layoutDop : (fuel : Nat) → Ctx → Dop → PVal → (pos p : Nat) → Opti
         { claims := oi.claims ++ ot.claims, next := oi.next }       -- the marker is not "consumed"
   | fuel+1, c, .eopField _ _ item, .list xs, pos, p =>
     if p ≠ 0 ∨ !c.lastInPdu then none else layoutItems fuel c item xs pos
+  | fuel+1, c, .mux bytePos swBytePos swBitPos swDop cases dflt, v, pos, p =>
+    if p ≠ 0 then none else
+    -- which switch key the value denotes and which case structure it selects (ODX 7.3.6.10: the case whose key range
+    -- contains the switch key, else the DEFAULT-CASE)
+    let byKey (k : Int) : Option (Option Dop) :=
+      match cases.find? (fun cs => decide (cs.lower ≤ k ∧ k ≤ cs.upper)) with
+      | some cs => some cs.struct
+      | none => dflt.map (·.2)
+    let sel : Option (Int × Option Dop × PVal) :=
+      match v with
+      | .keyed k content => (byKey k).map fun st => (k, st, content)
+      | .pair name content | .dict [(name, content)] =>
+        (match cases.find? (fun cs => cs.name == name) with
+         | some cs => some (cs.lower, cs.struct, content)                       -- a case selected by name: its lower limit
+         | none => (match dflt with
+           | some (dn, ds) => if dn = name then some (specDefaultKey cases, ds, content) else none
+           | none => none))
+      | .nokey content => dflt.map fun d => (specDefaultKey cases, d.2, content)
+      | _ => none
+    sel.bind fun (key, st, content) =>
+      (layoutDop fuel c swDop (.atom (.int key)) (pos + swBytePos) (swBitPos.getD 0)).bind fun ok =>
+        match st with
+        | some d => (layoutDop fuel c d content (pos + bytePos) 0).map fun oc =>
+            { claims := ok.claims ++ oc.claims, next := oc.next }
+        | none =>
+          (match content with
+           | .none | .dict [] => some { claims := ok.claims ++ extentClaim (pos + bytePos), next := pos + bytePos }
+           | _ => none)
   | _+1, _, _, _, _, _ => none
 
 /-- field items one behind the other; only the last one can be last in the PDU -/
